@@ -62,6 +62,14 @@ ASSUMPTIONS = [
 _FIXED = None
 
 
+def evidence_extra(counters, keys):
+    return {"clamp_steps_observed": counters.get("steps", 0), "rollbacks_observed": counters.get("path:rollback", 0),
+            "skips_observed_injected": counters.get("path:skip-injected", 0),
+            "skips_observed_natural": counters.get("path:skip-natural", 0),
+            "steps_accepted": counters.get("path:accepted", 0),
+            "optimize_calls_aborted_by_exception": counters.get("optimize-aborted", 0)}
+
+
 def fixed_cases(tier):
     """coverage-guaranteeing deterministic cases: every clamp kind, link kind and method, with and without failpoint"""
     global _FIXED
@@ -326,7 +334,8 @@ def run_case(ctx, case):
         ctx.count("skipped:degenerate-initial-grid")
         return
     with contextlib.redirect_stdout(sink):
-        optimizer = MeshOptimizer(mesh, report=False) if kind == "mesh" else SketchOptimizer(sketch, report=False)
+        report = bool(case.get("report"))  # only adds a printed summary
+        optimizer = MeshOptimizer(mesh, report=report) if kind == "mesh" else SketchOptimizer(sketch, report=report)
 
     # ---- clamps and links -----------------------------------------------------------------------------------
     clamp_of, clamp_obj, clamp_vertex = {}, {}, {}
